@@ -688,6 +688,45 @@ def run(ctx: Any, prog: Program) -> None:
     if n17 < 1:
         raise AnalysisError('Z17: VPK.load_dirfile no longer opens self.path for reading: anchor vanished')
 
+    # ---- Z18: every field of a directory entry is computed for that entry -------------------------------------------------------------------
+    # A local packed into the per-file record of write_dirfile must be assigned on every path of the iteration that packs it: a "default
+    # set once before the loop, overridden when needed" keeps the previous file's value (its archive index) for the next file.
+    ctx.rule('C13.Z18', 'values packed into a directory entry are assigned in the iteration that packs them, on every path', floor=1)
+    from rules.c16 import stale_loop_values as _stale
+    wd18 = vpk.methods('VPK')['write_dirfile']
+    packs18 = [c for l in ast.walk(wd18) if isinstance(l, (ast.For, ast.While)) for c in ast.walk(l) if isinstance(c, ast.Call) and (dotted(c.func) or '').split('.')[-1] == 'pack']
+    ctx.shape('C13.Z18', len({id(c) for c in packs18}) >= 1, vpk, wd18, 'no pack() call inside the file loops of write_dirfile', func='VPK.write_dirfile', text='entry fields assigned per file')
+    hz18 = _stale(wd18, {'pack'})
+    seen18 = set()
+    for c18, v18, lp18 in hz18:
+        if (id(c18), v18) in seen18:
+            continue
+        seen18.add((id(c18), v18))
+        ctx.check('C13.Z18', False, vpk, c18, f'VPK.write_dirfile packs `{v18}` into the entry of every file, but an iteration assigns it only on some paths: a file for which none of them runs is written with the value '
+                  'left over from the previous file (a directory-stored file gets the archive index of its neighbour and reads back other bytes)', func='VPK.write_dirfile', text=f'`{v18}` assigned per file')
+    if not hz18:
+        ctx.check('C13.Z18', True, vpk, wd18, 'every packed local is assigned per iteration', func='VPK.write_dirfile', text='entry fields assigned per file')
+
+    # ---- Z19: the recorded offset is where this write put the data ---------------------------------------------------------------------------
+    # FileInfo.write records (arch_index, offset, arch_len) and appends the data to that storage.  The offset is therefore the end of that
+    # storage taken right before the append (`len(self.vpk.footer_data)`, `file.seek(0, SEEK_END)` / `file.tell()`), or the constant 0 of a
+    # file without archive part - never a position remembered from another write, which belongs to whatever archive that write went to.
+    ctx.rule('C13.Z19', 'FileInfo.write records as offset the end of the storage it then appends to', floor=3)
+    fw19 = vpk.methods('FileInfo')['write']
+    n19 = 0
+    for a19 in [a for a in walk_no_nested(fw19) if isinstance(a, ast.Assign) and any(dotted(t) == 'self.offset' for t in a.targets)]:
+        v19 = a19.value
+        ok19 = (isinstance(v19, ast.Constant) and v19.value == 0) \
+            or (isinstance(v19, ast.Call) and dotted(v19.func) == 'len' and len(v19.args) == 1 and (dotted(v19.args[0]) or '').endswith('footer_data')) \
+            or (isinstance(v19, ast.Call) and isinstance(v19.func, ast.Attribute) and v19.func.attr in ('seek', 'tell') and isinstance(v19.func.value, ast.Name))
+        n19 += 1
+        if not ok19 and isinstance(v19, ast.Name):
+            ctx.shape('C13.Z19', False, vpk, a19, f'FileInfo.write sets the offset from the local `{v19.id}`: where that comes from is not followed', func='FileInfo.write', text=f'offset `{U(v19)[:40]}` is the end of the storage')
+            continue
+        ctx.check('C13.Z19', ok19, vpk, a19, f'FileInfo.write records the offset `{U(v19)[:50]}`, which is not the end of the storage this write appends to: the entry then names the requested archive (self.arch_index) '
+                  'together with a position that belongs to another write - in another archive the bytes there are different, or missing', func='FileInfo.write', text=f'offset `{U(v19)[:40]}` is the end of the storage')
+    ctx.shape('C13.Z19', n19 >= 3, vpk, fw19, f'{n19} assignments of self.offset found in FileInfo.write (directory tail, numbered archive, no archive part)', func='FileInfo.write', text='offset assignments')
+
     # ---- Z15: file data in a numbered archive is read at the offset recorded for it ---------------------------------------------------------
     # Overwrites and removals leave dead blocks in the numbered archives and new data is appended, so the live blocks are neither contiguous
     # nor in directory order: a read of `<entry>.arch_len` bytes is right only directly after `seek(<entry>.offset)` on the same file object.
@@ -806,6 +845,8 @@ def run(ctx: Any, prog: Program) -> None:
         ctx.shape('C13.Z6', False, vpk, w, 'preload slice bound not recognised', func='FileInfo.write', text='preload bounded to 16 bits')
 
 MUTANTS = [
+    {'id': 'offset_from_a_block_table', 'file': 'vpk.py', 'find': "                self.offset = len(self.vpk.footer_data)\n", 'replace': "                self.offset = self.vpk._fileinfo.get('blocks', {}).get(new_checksum, len(self.vpk.footer_data))\n", 'expect': 'C13.Z19', 'note': 'round 12'},
+    {'id': 'archive_index_carried_over', 'file': 'vpk.py', 'find': "                        if info.arch_index is None:\n                            arch_ind = DIR_ARCH_INDEX\n                        else:\n                            arch_ind = info.arch_index\n", 'replace': "                        if info.arch_index is not None:\n                            arch_ind = info.arch_index\n", 'extra': [{'file': 'vpk.py', 'find': "            key_getter = operator.itemgetter(0)\n", 'replace': "            key_getter = operator.itemgetter(0)\n            arch_ind = DIR_ARCH_INDEX\n"}], 'expect': 'C13.Z18', 'note': 'round 12'},
     {'id': 'write_mode_reads_old_directory', 'file': 'vpk.py', 'find': "        if self.mode is OpenModes.WRITE:\n            # Erase the directory file, we ignore current contents.", 'replace': "        if self.mode is OpenModes.WRITE and not os.path.exists(self.path):\n            # Erase the directory file, we ignore current contents.", 'expect': 'C13.Z17', 'refuse_ok': True, 'note': 'round 11'},
     {'id': 'verify_reads_without_seek', 'file': 'vpk.py', 'find': "                    data.seek(self.offset)\n                    chk = checksum(", 'replace': "                    chk = checksum(", 'expect': 'C13.Z15'},
     {'id': 'file_parts_lstrip_dot_slash', 'file': 'vpk.py', 'find': "    path = os.path.normpath(path).replace('\\\\', '/').rstrip('/')\n", 'replace': "    path = os.path.normpath(path).replace('\\\\', '/').lstrip('./').rstrip('/')\n", 'expect': 'C13.Z12'},
